@@ -145,6 +145,9 @@ func (p *program) formData(f *form) []byte {
 	if !f.damaged {
 		return renderWith(f.ops, local)
 	}
+	if f.undecodable {
+		return []byte("\x78\x9c this is not deflate data \x00\xff\x13\x37")
+	}
 	return append(append([]byte("q\n2 0 0 2 30 40 cm\n"), renderWith(f.ops, local)...), []byte("BT (cut off")...)
 }
 
@@ -168,6 +171,9 @@ type form struct {
 	// error (an unterminated string). Whatever a reader makes of such a form,
 	// the state after the Do must be the state before it.
 	damaged bool
+	// undecodable (a kind of damaged): the stream says /Filter /FlateDecode over data
+	// that do not inflate; the form has a /Matrix like any other
+	undecodable bool
 	// danglingRes: /Resources is a reference to an object that does not exist
 	// (reads as null): the form uses the page's resources, its /Matrix still applies
 	danglingRes bool
@@ -436,6 +442,10 @@ func (g *genState) newForm(depth int) *form {
 	if g.damagedForms && g.r.Intn(2) == 0 {
 		f.damaged = true
 		g.p.features["form-damaged-after-q"] = true
+		if g.r.Intn(3) == 0 {
+			f.undecodable = true
+			g.p.features["form-undecodable"] = true
+		}
 	}
 	if !f.damaged && g.r.Intn(6) == 0 {
 		f.danglingRes = true
